@@ -49,6 +49,9 @@ func (r *run) pickCrashPoints(log []simos.Effect, want int, seed uint64) []int {
 			if strings.HasSuffix(base, ".db.tmp") {
 				w[ci] = 2
 			}
+			if base == "UTXO.db" || base == "UTXO.old" {
+				w[ci] = 8 // a snapshot file written in place
+			}
 		}
 		if e.G != "0" {
 			w[ci] *= 2 // issued by a background goroutine (snapshot writer, undo writer)
